@@ -184,7 +184,18 @@ def run_once(engine, case, events, gtables, F, target, drop=None, machine_patch=
             if F.hit("action"):
                 raise Injected("action " + _n)
         return _a
+    def mk_async_action(name):
+        async def _a(interp, ctx, event, action_def, _n=name):
+            rec.log.append(("act", _n, event, config_of(interp), 0))
+            if F.hit("action"):
+                raise Injected("action " + _n)
+        return _a
     actions = {n: mk_action(n) for n in names if not (drop and n in drop)}
+    if engine == "async":
+        # every third user action is a coroutine function: its body - and its failure - happen at
+        # the await, not at the call
+        for n in sorted(actions)[::3]:
+            actions[n] = mk_async_action(n)
     for n in (async_names or []):
         async def _coro(interp, ctx, event, action_def):
             return None
